@@ -272,3 +272,9 @@ Proof.
   - exists em, new. split; [exact HE|]. cbn [out tbl set_rsec cq can cau cad].
     split; [exact Hbig|]. repeat split. exact TB.
 Qed.
+
+(* the statement of C08 size_bound *)
+Lemma size_bound_stmt : forall m origin max_size request_payload prefer_truncation pad w,
+  to_wire m origin max_size request_payload prefer_truncation pad = Ok w ->
+  zlen w <= eff_limit max_size request_payload /\ 512 <= eff_limit max_size request_payload <= 65535.
+Proof. intros. split; [eapply size_bound_lemma; eassumption|apply eff_limit_range]. Qed.
